@@ -386,9 +386,14 @@ Proof.
 Qed.
 
 (* ------------------------------------------------------------------ the theorems of C10 *)
-Theorem wf_sound_proof D : sanity_typedefs D = Ok None -> WellFormed D.
+Lemma modes_ok_proper D :
+  (forall m t, ModesOK D m t -> proper m = true /\ mode_of t = m) /\ (forall m b, BrsModesOK D m b -> True).
+Proof. apply ModesOK_mut; cbn; intros; auto. Qed.
+
+(* the current code: sound only up to the recorded modes of the definitions (finding F20) *)
+Theorem wf_sound_guarded_proof D : sanity_typedefs D = Ok None -> DefModesAgree D -> WellFormed D.
 Proof.
-  intros H. apply sanity_typedefs_ok in H as (Hnd & Hw & Hc). constructor; auto.
+  intros H Hg. apply sanity_typedefs_ok in H as (Hnd & Hw & Hc). constructor; auto.
   - intros d Hin. apply check_wf_sound; auto.
   - apply contractive_sound; auto.
   - intros d Hin. apply check_wf_sound; auto.
@@ -396,7 +401,7 @@ Qed.
 
 Theorem wf_complete_proof D : WellFormed D -> sanity_typedefs D = Ok None.
 Proof.
-  intros [Hnd Hl Hc Hm]. apply sanity_typedefs_ok. repeat split; auto.
+  intros [Hnd Hl Hc Hm _]. apply sanity_typedefs_ok. repeat split; auto.
   - intros d Hin. apply check_wf_complete; auto. split; auto.
   - intros d Hin. apply (chain_ok D Hnd Hc Hl); auto.
     + constructor.
@@ -409,12 +414,55 @@ Theorem unfold_terminates_proof D : WellFormed D ->
   forall d, In d D -> forall m, exists T,
     unfold (unfold_fuel D) D (TName (td_name d) m) = Ok (Some T) /\ is_name T = false.
 Proof.
-  intros [Hnd Hl Hc Hm] d Hin m. unfold unfold_fuel. cbn. rewrite (tlookup_nodup _ _ Hnd Hin).
+  intros [Hnd Hl Hc Hm _] d Hin m. unfold unfold_fuel. cbn. rewrite (tlookup_nodup _ _ Hnd Hin).
   apply (chain_ok D Hnd Hc Hl (length D) [td_name d]); auto.
   - constructor; [intros [] | constructor].
   - intros z [<-|[]]. apply in_map; auto.
   - intros z [<-|[]]. apply rt_refl.
   - cbn. lia.
+Qed.
+
+(* the repaired check (fixes/F20_defmode.patch): exactly the well-formed environments *)
+Lemma wf_all_fixed_none D l : wf_all_fixed D l = None <->
+  (forall d, In d l -> check_wf D (td_body d) = None /\ mode_eqb (mode_of (td_body d)) (td_mode d) = true).
+Proof.
+  induction l as [|d r IH]; cbn [wf_all_fixed In].
+  - split; [tauto | reflexivity].
+  - rewrite orelse_none, orelse_none, IH, if_negb_none. split.
+    + intros (H1 & (H2 & _) & H3) d' [<-|Hin]; auto.
+    + intros H. repeat split; try apply H; auto. intros d' Hin. apply H; auto.
+Qed.
+
+Lemma sanity_typedefs_fixed_ok D :
+  sanity_typedefs_fixed D = Ok None <->
+  sanity_typedefs D = Ok None /\ (forall d, In d D -> mode_eqb (mode_of (td_body d)) (td_mode d) = true).
+Proof.
+  unfold sanity_typedefs_fixed, sanity_typedefs. destruct (dup_def D []).
+  - split; [discriminate | intros [H _]; discriminate].
+  - destruct (wf_all_fixed D D) as [e|] eqn:Ef.
+    + split; [discriminate|]. intros [H Hm]. destruct (wf_all D D) as [e'|] eqn:Ew; [discriminate|].
+      assert (wf_all_fixed D D = None); [|congruence].
+      apply wf_all_fixed_none. intros d Hin. split; auto. apply (proj1 (wf_all_none D D) Ew); auto.
+    + pose proof (proj1 (wf_all_fixed_none D D) Ef) as Hf.
+      assert (Ew : wf_all D D = None) by (apply wf_all_none; intros d Hin; apply Hf; auto).
+      rewrite Ew. split; [intros H; split; auto; intros d Hin; apply Hf; auto | tauto].
+Qed.
+
+Theorem wf_sound_fixed_proof D : sanity_typedefs_fixed D = Ok None -> WellFormed D.
+Proof.
+  intros H. apply sanity_typedefs_fixed_ok in H as [H Hm]. apply wf_sound_guarded_proof; auto.
+  intros d Hin. pose proof (proj1 (sanity_typedefs_ok D) H) as (_ & Hw & _).
+  destruct (check_wf_sound _ _ (Hw d Hin)) as [_ Hmo].
+  destruct (proj1 (modes_ok_proper D) _ _ Hmo) as [Hp _].
+  symmetry. apply (mode_eqb_proper _ _ Hp). apply Hm; auto.
+Qed.
+
+Theorem wf_complete_fixed_proof D : WellFormed D -> sanity_typedefs_fixed D = Ok None.
+Proof.
+  intros H. apply sanity_typedefs_fixed_ok. split; [apply wf_complete_proof; auto|].
+  destruct H as [_ _ _ Hm Hd]. intros d Hin.
+  destruct (proj1 (modes_ok_proper D) _ _ (Hm d Hin)) as [Hp _].
+  apply (mode_eqb_proper _ _ Hp). symmetry. apply Hd; auto.
 Qed.
 
 (* annotation types (let / prc / assuming / typed cut): SanityChecksType *)
